@@ -4,11 +4,13 @@ import importlib
 PROFILE_MODULES = {
     "crash": "crash",
     "finders": "finders",
+    "last": "last",
 }
 
 PROPERTY_PROFILE = {
     "C17": "crash",
     "C11": "finders",
+    "C09": "last",
 }
 
 _cache = {}
